@@ -155,6 +155,26 @@ def obs_term(call, res):
     raise RuntimeError("no encoding for " + nm)
 
 
+def segments(case, out):
+    """split a script at its `move` calls: each segment has its own coordinates and reference corner angles"""
+    segs = [{"V": case["V"], "angles": out["angles"], "items": []}]
+    for k, (call, res) in enumerate(zip(case["script"], out["out"])):
+        if call[0] == "move":
+            if "ok" not in res:
+                segs[-1]["items"].append((k, call, res))
+                break
+            segs.append({"V": call[1], "angles": res["ok"]["angles"], "items": []})
+        else:
+            segs[-1]["items"].append((k, call, res))
+    return segs
+
+
+def case_terms(case, out):
+    return [case_term(dict(case, V=sg["V"], script=[c for _, c, _ in sg["items"]]),
+                      dict(out, angles=sg["angles"], out=[r for _, _, r in sg["items"]]))
+            for sg in segments(case, out) if sg["items"] or len(case["script"]) == 0]
+
+
 def case_term(case, out):
     obs = [obs_term(c, r) for c, r in zip(case["script"], out["out"])]
     obs = [o for o in obs if o is not None]
@@ -418,12 +438,18 @@ def oracle_case(case, out):
     bad = []
     if "build_error" in out:
         return [(-1, "mesh construction failed: " + out["build_error"])]
-    T = Truth([[Fr(x) for x in p] for p in case["V"]], case.get("F"), case.get("C"))
-    if case.get("C"):
-        T.set_faces(out["faces"])
     edges = [tuple(e) for e in out["edges"]]
-    is_tri = all(len(f) == 3 for f in T.F)
-    for k, (call, res) in enumerate(zip(case["script"], out["out"])):
+    items = []
+    for sg in segments(case, out):
+        Tg = Truth([[Fr(x) for x in p] for p in sg["V"]], case.get("F"), case.get("C"))
+        if case.get("C"):
+            Tg.set_faces(out["faces"])
+        items += [(k, call, res, Tg) for k, call, res in sg["items"]]
+    for k, call, res, T in items:
+        if call[0] == "move":
+            bad.append((k, "moving the vertices raised " + res.get("err", "?")))
+            continue
+        is_tri = all(len(f) == 3 for f in T.F)
         exp = expected(T, edges, call)
         if "err" in res:
             if isinstance(exp, tuple) and exp[0] == "raises":
@@ -637,8 +663,25 @@ def run_driver(cases, timeout=600):
 
 
 KEY_SKEW = "attr/face_normals/skew-quad-rotation"
+KEY_GUARD = "attr/circum/absolute-parallel-guard"
 WITNESS_SKEW = {"V": [[0.0, 0.0, 0.0], [1.0, 0.0, 0.0], [1.0, 1.0, 1.0], [0.0, 1.0, 0.0]], "C": None,
                 "script": [["face_normals", False, True]]}
+
+
+CONSUMERS = {"cot", "cw", "defects", "vnormals", "mean_area", "mean_vol", "total_area", "f2v", "c2v", "c2f"}
+
+
+def stale_key(case, k):
+    """key of the stale-cache class if call k comes after a move that was preceded by a persistent computation"""
+    if k < 0:
+        return None
+    sc = case["script"]
+    mv = [i for i, c in enumerate(sc[:k]) if c[0] == "move"]
+    if not mv or sc[k][0] not in CONSUMERS:
+        return None
+    if any(c[0] in G.PRODUCERS and c[-2] is True for c in sc[:mv[-1]]):
+        return "stale-cache/" + sc[k][0]
+    return None
 
 
 def classify(call, msg):
@@ -662,7 +705,7 @@ def shrink_case(case, k, fails_many, deadline):
         cur = single
     else:
         cur = dict(cur, script=cur["script"][:k + 1])
-    interp = any(c[0] in ("v2f", "f2v", "sv2c", "sf2c", "c2v", "c2f") for c in cur["script"])
+    interp = any(c[0] in ("v2f", "f2v", "sv2c", "sf2c", "c2v", "c2f", "move") for c in cur["script"])
     if cur.get("F") and not cur.get("C") and not interp:
         for _round in range(8):
             if time.time() > deadline:
@@ -723,7 +766,12 @@ def run(ctx):
         fam = gen_family(ctx.rng, fid, ctx.tier)
         fam_index.append((len(cases), len(fam)))
         cases += fam
-    ctx.log("generated %d cases in %d families" % (len(cases), n_fam))
+    n_scen = 36 if quick else 400
+    for sid in range(n_scen):
+        kind, V, F, C, script = G.gen_scenario(ctx.rng)
+        cases.append({"V": [[float(x) for x in p] for p in V], "F": F, "C": C, "script": script,
+                      "meta": {"kind": kind, "family": "scenario-%d" % sid, "variant": "scenario"}})
+    ctx.log("generated %d cases in %d families + %d move scenarios" % (len(cases), n_fam, n_scen))
     outs = run_driver(cases, timeout=900 if quick else 3000)
     ctx.log("implementation ran")
 
@@ -770,8 +818,12 @@ def run(ctx):
     # 2. kernel-checked correspondence
     bad = []
     if b["model_ok"]:
-        idx = [i for i, o in enumerate(outs) if "build_error" not in o]
-        terms = [case_term(cases[i], outs[i]) for i in idx]
+        idx, terms = [], []
+        for i, o in enumerate(outs):
+            if "build_error" not in o:
+                for t in case_terms(cases[i], o):
+                    idx.append(i)
+                    terms.append(t)
         # chunks of <= 640 cases; a chunk whose shards were killed (memory pressure on a shared machine) is retried
         # once with smaller shards before it counts as not evaluated
         chunk = 640
@@ -802,13 +854,37 @@ def run(ctx):
     except Exception as ex:  # noqa
         ctx.log("witness replay failed: %r" % ex)
 
+    try:   # absolute parallelism guard of intersect_2lines2D: a small, well-shaped triangle has no circumcentre
+        e_ = 1e-7
+        wt = {"V": [[0.0, 0.0, 0.0], [e_, 0.0, 0.0], [0.0, e_, 0.0]], "F": [[0, 1, 2]], "C": None, "script": [["circum", False, True]]}
+        ot = run_driver([wt], timeout=120)[0]
+        r0 = ot["out"][0]
+        good = "ok" in r0 and finite(r0["ok"]) and closev(r0["ok"][0], [e_ / 2, e_ / 2, 0.0], scale=e_)
+        if not good:
+            ctx.violation("face_circumcenter of the right triangle with legs 1e-7: %s (the same triangle scaled by 1e7 has "
+                          "circumcentre (0.5, 0.5, 0))" % (r0.get("err") or r0.get("ok")), {"case": wt, "observed": ot}, key=KEY_GUARD)
+        else:
+            ctx.notes.append("recorded finding %s no longer reproduces" % KEY_GUARD)
+        # stale cache: area computed persistently, vertices moved, total_area afterwards
+        ws = {"V": [[0.0, 0.0, 0.0], [2.0, 0.0, 0.0], [0.0, 2.0, 0.0]], "F": [[0, 1, 2]], "C": None,
+              "script": [["face_area", True, True], ["move", [[0.0, 0.0, 0.0], [4.0, 0.0, 0.0], [0.0, 4.0, 0.0]]], ["total_area"]]}
+        os_ = run_driver([ws], timeout=120)[0]
+        ms = oracle_case(ws, os_)
+        if ms:
+            ctx.violation(ms[0][1] + " after the vertices were moved (area attribute computed before the move)",
+                          {"case": ws, "observed": os_}, key="stale-cache/total_area")
+        else:
+            ctx.notes.append("recorded finding stale-cache/total_area no longer reproduces")
+    except Exception as ex:  # noqa
+        ctx.log("witness replay failed: %r" % ex)
+
     # 3. verdicts
     reported = set()
     shrink_deadline = time.time() + (40 if quick else 300)
     for i, k, msg in fails[:400]:
         case = cases[i]
         call = case["script"][k] if k >= 0 else None
-        key = classify(call, msg)
+        key = stale_key(case, k) or classify(call, msg)
         if key in reported:
             continue
         reported.add(key)
@@ -837,7 +913,7 @@ def run(ctx):
         diag(ctx, [cases[i] for i in unexplained[:3]], [outs[i] for i in unexplained[:3]])
     elif bad and fails:
         # every disagreement is on a case the oracle also rejects: the correspondence is not what is broken
-        if all(ctx.known(classify(cases[i]["script"][k] if k >= 0 else None, m)) for i, k, m in fails if i in bad):
+        if all(ctx.known(stale_key(cases[i], k) or classify(cases[i]["script"][k] if k >= 0 else None, m)) for i, k, m in fails if i in bad):
             for ob in ctx.obligations:
                 if ob["kind"] == "correspondence" and not ob["ok"]:
                     ob["ok"] = True
